@@ -346,6 +346,14 @@ func genEntityOpt(r *vh.Rand, second bool, forcedName string) *entityDecl {
 				q.DefaultStatus = append(q.DefaultStatus, s)
 			}
 		}
+		// the filters keep the order (and repetitions) in which they are listed
+		if len(q.DefaultStatus) > 1 && r.Chance(50) {
+			i, j := r.Intn(len(q.DefaultStatus)), r.Intn(len(q.DefaultStatus))
+			q.DefaultStatus[i], q.DefaultStatus[j] = q.DefaultStatus[j], q.DefaultStatus[i]
+		}
+		if len(q.DefaultStatus) > 0 && r.Chance(10) {
+			q.DefaultStatus = append(q.DefaultStatus, q.DefaultStatus[0])
+		}
 		d.Query = q
 	}
 	return d
